@@ -103,7 +103,7 @@ func decodeEntry(cdc codec.Marshaler, prefix byte, k, v []byte) (string, bool) {
 		if cdc.UnmarshalBinaryBare(v, &d) != nil || d.Name != string(k) || !plainWord(d.Name) {
 			return "", false
 		}
-		return fmt.Sprintf("D %s %s", d.Name, hexOrDash(d.Author)), true
+		return recDefinition(d), true
 
 	case 0x02: // binding: svc 0x00 bech32(prov) -> ServiceBinding
 		svc, prov, ok := splitSvcBech32(k)
@@ -111,13 +111,7 @@ func decodeEntry(cdc codec.Marshaler, prefix byte, k, v []byte) (string, bool) {
 		if !ok || cdc.UnmarshalBinaryBare(v, &b) != nil || b.ServiceName != svc || !bytes.Equal(b.Provider, prov) {
 			return "", false
 		}
-		price, promT, promV, ok := parsePricingText(b.Pricing)
-		if !ok {
-			return "", false
-		}
-		return fmt.Sprintf("B %s %s %s %s %s %s %d %s %s %s",
-			wordOrDash(svc), hexOrDash(prov), hexOrDash(b.Owner), b.Deposit.AmountOf(stakeDenom), bit(b.Available),
-			timeNs(b.DisabledTime), b.QoS, price, promT, promV), true
+		return recBinding(b)
 
 	case 0x03: // owner binding: owner(20) svc 0x00 prov -> {}
 		if len(k) < sdk.AddrLen || len(v) != 0 {
@@ -154,27 +148,14 @@ func decodeEntry(cdc codec.Marshaler, prefix byte, k, v []byte) (string, bool) {
 			promTText(p.PromotionsByTime), promVText(p.PromotionsByVolume)), true
 
 	case 0x07: // withdraw address: owner -> raw address bytes
-		return fmt.Sprintf("WD %s %s", hexOrDash(k), hexOrDash(v)), true
+		return recWithdrawAddr(k, v), true
 
 	case 0x08: // request context: id -> RequestContext
 		var rc types.RequestContext
 		if cdc.UnmarshalBinaryBare(v, &rc) != nil {
 			return "", false
 		}
-		provs := make([]string, len(rc.Providers))
-		for i, p := range rc.Providers {
-			provs[i] = hexOrDash(p)
-		}
-		bstate, ok1 := types.RequestContextBatchStateToStringMap[rc.BatchState]
-		state, ok2 := types.RequestContextStateToStringMap[rc.State]
-		if !ok1 || !ok2 {
-			return "", false
-		}
-		return fmt.Sprintf("CX %s %s %s %s %s %d %s %s %d %d %d %d %d %d %s %s %d %s",
-			hexOrDash(k), wordOrDash(rc.ServiceName), listOrDash(provs), hexOrDash(rc.Consumer), coinsOrDash(rc.ServiceFeeCap),
-			rc.Timeout, bit(rc.SuperMode), bit(rc.Repeated), rc.RepeatedFrequency, rc.RepeatedTotal,
-			rc.BatchCounter, rc.BatchRequestCount, rc.BatchResponseCount, rc.BatchResponseThreshold,
-			bstate, state, rc.ResponseThreshold, wordOrDash(rc.ModuleName)), true
+		return recContext(k, rc)
 
 	case 0x09, 0x10: // expired / new batch queue: BE64(h) id -> BytesValue(id)
 		var id gogotypes.BytesValue
@@ -236,14 +217,7 @@ func decodeEntry(cdc codec.Marshaler, prefix byte, k, v []byte) (string, bool) {
 		if cdc.UnmarshalBinaryBare(v, &r) != nil {
 			return "", false
 		}
-		var result struct {
-			Code *uint16 `json:"code"`
-		}
-		if json.Unmarshal([]byte(r.Result), &result) != nil || result.Code == nil {
-			return "", false
-		}
-		return fmt.Sprintf("RS %s %s %s %d %s %s %d", hexOrDash(k), hexOrDash(r.Provider), hexOrDash(r.Consumer),
-			*result.Code, classifyOutput(r.Output), hexOrDash(r.RequestContextId), r.RequestContextBatchCounter), true
+		return recResponse(k, r)
 
 	case 0x17: // request volume: bech32(cons) 0x00 svc 0x00 bech32(prov) 0x00 -> UInt64Value
 		parts := bytes.Split(k, []byte{0x00})
@@ -273,6 +247,119 @@ func decodeEntry(cdc codec.Marshaler, prefix byte, k, v []byte) (string, bool) {
 		return fmt.Sprintf("OE %s %s", hexOrDash(k), c.Amount), true
 	}
 	return "", false
+}
+
+// ---------------------------------------------------------------------------
+// record layouts shared by the state lines (§2), the Q lines (§4.1) and the G
+// lines (§4.2). The functions returning a bool report false when some field
+// cannot be rendered; the state scan then prints a garbage line, whereas the
+// Q/G lines keep the record with `-` in the place of that field.
+
+func recDefinition(d types.ServiceDefinition) string {
+	return fmt.Sprintf("D %s %s", wordOrDash(d.Name), hexOrDash(d.Author))
+}
+
+func recBinding(b types.ServiceBinding) (string, bool) {
+	price, promT, promV, ok := parsePricingText(b.Pricing)
+	if !ok {
+		price, promT, promV = "-", "-", "-"
+	}
+	return fmt.Sprintf("B %s %s %s %s %s %s %d %s %s %s",
+		wordOrDash(b.ServiceName), hexOrDash(b.Provider), hexOrDash(b.Owner), b.Deposit.AmountOf(stakeDenom), bit(b.Available),
+		timeNs(b.DisabledTime), b.QoS, price, promT, promV), ok
+}
+
+func recWithdrawAddr(owner, addr []byte) string {
+	return fmt.Sprintf("WD %s %s", hexOrDash(owner), hexOrDash(addr))
+}
+
+func recContext(id []byte, rc types.RequestContext) (string, bool) {
+	provs := make([]string, len(rc.Providers))
+	for i, p := range rc.Providers {
+		provs[i] = hexOrDash(p)
+	}
+	bstate, ok1 := types.RequestContextBatchStateToStringMap[rc.BatchState]
+	state, ok2 := types.RequestContextStateToStringMap[rc.State]
+	if !ok1 {
+		bstate = "-"
+	}
+	if !ok2 {
+		state = "-"
+	}
+	return fmt.Sprintf("CX %s %s %s %s %s %d %s %s %d %d %d %d %d %d %s %s %d %s",
+		hexOrDash(id), wordOrDash(rc.ServiceName), listOrDash(provs), hexOrDash(rc.Consumer), coinsOrDash(rc.ServiceFeeCap),
+		rc.Timeout, bit(rc.SuperMode), bit(rc.Repeated), rc.RepeatedFrequency, rc.RepeatedTotal,
+		rc.BatchCounter, rc.BatchRequestCount, rc.BatchResponseCount, rc.BatchResponseThreshold,
+		bstate, state, rc.ResponseThreshold, wordOrDash(rc.ModuleName)), ok1 && ok2
+}
+
+func recResponse(id []byte, r types.Response) (string, bool) {
+	var result struct {
+		Code *uint16 `json:"code"`
+	}
+	code, ok := "-", false
+	if json.Unmarshal([]byte(r.Result), &result) == nil && result.Code != nil {
+		code, ok = fmt.Sprint(*result.Code), true
+	}
+	return fmt.Sprintf("RS %s %s %s %s %s %s %d", hexOrDash(id), hexOrDash(r.Provider), hexOrDash(r.Consumer),
+		code, classifyOutput(r.Output), hexOrDash(r.RequestContextId), r.RequestContextBatchCounter), ok
+}
+
+// recRequest is the REQ layout of §4.1 (a full Request as the queries return it).
+func recRequest(r types.Request) string {
+	return fmt.Sprintf("REQ %s %s %s %s %s %s %d %d %s %d", hexOrDash(r.Id), wordOrDash(r.ServiceName), hexOrDash(r.Provider),
+		hexOrDash(r.Consumer), coinsOrDash(r.ServiceFee), bit(r.SuperMode), r.RequestHeight, r.ExpirationHeight,
+		hexOrDash(r.RequestContextId), r.RequestContextBatchCounter)
+}
+
+func recEarnedFees(prov []byte, fees sdk.Coins) string {
+	return fmt.Sprintf("EF %s %s", hexOrDash(prov), fees.AmountOf(stakeDenom))
+}
+
+func recParams(p types.Params) string {
+	return fmt.Sprintf("PARAMS %d %d %s %s %s %d %d", p.MaxRequestTimeout, p.MinDepositMultiple, coinsOrDash(p.MinDeposit),
+		decText(p.ServiceFeeTax), decText(p.SlashFraction), int64(p.ComplaintRetrospect), int64(p.ArbitrationTimeLimit))
+}
+
+// genesisLines renders a GenesisState as the G lines of §4.2, sorted bytewise.
+// A withdraw-address key that is not bech32, or a context key that is not hex,
+// is printed as `-`.
+func genesisLines(gs *types.GenesisState) []string {
+	lines := []string{"G " + recParams(gs.Params)}
+	for _, d := range gs.Definitions {
+		lines = append(lines, "G "+recDefinition(d))
+	}
+	for _, b := range gs.Bindings {
+		l, _ := recBinding(b)
+		lines = append(lines, "G "+l)
+	}
+	for owner, addr := range gs.WithdrawAddresses {
+		ownerBz, _ := decodeBech32(owner)
+		lines = append(lines, "G "+recWithdrawAddr(ownerBz, addr))
+	}
+	for id, rc := range gs.RequestContexts {
+		idBz, _ := hex.DecodeString(id)
+		var l string
+		if rc == nil {
+			l = "CX " + hexOrDash(idBz) + " nil"
+		} else {
+			l, _ = recContext(idBz, *rc)
+		}
+		lines = append(lines, "G "+l)
+	}
+	sort.Strings(lines)
+	return lines
+}
+
+// serviceStoreLines is the raw scan of the service store of any app, decoded as in dumpState.
+func serviceStoreLines(cdc codec.Marshaler, ctx sdk.Context, key sdk.StoreKey) []string {
+	it := ctx.KVStore(key).Iterator(nil, nil)
+	defer it.Close()
+	var lines []string
+	for ; it.Valid(); it.Next() {
+		lines = append(lines, decodeKV(cdc, append([]byte{}, it.Key()...), append([]byte{}, it.Value()...)))
+	}
+	return lines
 }
 
 // splitSvcBech32 splits `svc 0x00 bech32(addr)` and decodes the address.
